@@ -438,12 +438,22 @@ func (f factory) SignalToAdd(address, action string) error {
 	if action == "start" {
 		cl.oracleElection(v, s)
 	}
-	// what remote.Factory.SignalToAdd does: the action is posted to the replica, whose registration loop acts on it
-	if m, ok := cl.nodes[n].(*ModelNode); ok {
-		m.Actions = append(m.Actions, action)
+	// the REAL remote.Factory.SignalToAdd posts the action to the replica (whose registration loop acts on it): the model
+	// node's "start" handler records it.  Real nodes keep the stand-in (nothing consumes their action channel here).
+	if _, ok := cl.nodes[n].(*ModelNode); ok {
+		if err := realFactory.SignalToAdd(address, action); err != nil {
+			cl.observe("signal %s %s -> refused by the replica: %v", address, action, err != nil)
+			cl.signals[len(cl.signals)-1].ok = false
+			if action == "start" {
+				delete(cl.regTruth, n)
+			}
+			return err
+		}
 	}
 	return nil
 }
+
+var realFactory = &remote.Factory{}
 
 func (f factory) VerifyReplicaAlive(address string) bool {
 	n := nodeOf("tcp://" + address + ":9502")
@@ -456,12 +466,13 @@ func (f factory) VerifyReplicaAlive(address string) bool {
 		f.cl.cnt["lost_probes"]++
 		return false
 	}
+	// the REAL probe: GET /ping through the in-process transport (an unreachable node refuses the connection)
+	alive := realFactory.VerifyReplicaAlive(address)
 	if f.cl.down[n] {
 		// really unreachable: the controller may drop its registration, the ground truth follows
 		delete(f.cl.regTruth, n)
-		return false
 	}
-	return true
+	return alive
 }
 
 func (cl *cluster) violate(oracle, sig, detail string) {
